@@ -43,6 +43,14 @@ def log(*a):
 # --------------------------------------------------------------------------- work dirs
 
 def workdir(name):
+    # scratch dirs of runs that were killed or ended in a violation are kept for inspection, but not for ever
+    try:
+        for e in os.listdir(WORK):
+            q = os.path.join(WORK, e)
+            if os.path.isdir(q) and time.time() - os.path.getmtime(q) > 6 * 3600:
+                shutil.rmtree(q, ignore_errors=True)
+    except OSError:
+        pass
     d = os.path.join(WORK, name)
     shutil.rmtree(d, ignore_errors=True)
     os.makedirs(d, exist_ok=True)
@@ -153,6 +161,9 @@ def run_tlc(wd, module, cfg_text, workers=None, timeout=600, simulate=None, seed
     if dfs:
         jopts.append("-Dtlc2.tool.queue.IStateQueue=StateDeque")
     jopts.append("-Xss64m")
+    jtmp = os.path.join(wd, "jtmp")     # TLC/SANY leave tlc-*/SANY* temp dirs behind: keep them in the scratch dir
+    os.makedirs(jtmp, exist_ok=True)
+    jopts.append("-Djava.io.tmpdir=%s" % jtmp)
     if heap:
         jopts.append("-Xmx%s" % heap)
     env["JAVA_TOOL_OPTIONS"] = " ".join(jopts)
